@@ -37,14 +37,14 @@ theorem derived_can_grow (p : Nat → Bool) (s : Stack) (dgrow : Nat → Nat) (d
   · rw [h1] at hr
     simp only [Option.some.injEq] at hr
     subst hr
-    obtain ⟨ok, habs⟩ := C09Stack.push_succeeds r' x m' h3 hlive (fun _ => halloc) hlim
+    obtain ⟨ok, habs⟩ := C09Stack.push_succeeds r' x m' h3 (fun _ => halloc) hlim
     exact ⟨ok, by rw [habs, h2]⟩
 
 /-- every interleaving on the result is LIFO from the filtered content -/
-theorem derived_history (r : Stack) (ops : List Spec.Seq.SOp) (m : Mem) (hinv : r.Inv) (hlive : 0 < m.live) :
+theorem derived_history (r : Stack) (ops : List Spec.Seq.SOp) (m : Mem) (hinv : r.Inv) :
     (r.run ops m).1 = (Spec.Seq.srun r.abs ops ((r.run ops m).1.map Spec.Seq.Out.blocked)).1 ∧
     (r.run ops m).2.1.abs = (Spec.Seq.srun r.abs ops ((r.run ops m).1.map Spec.Seq.Out.blocked)).2 :=
-  ⟨(C09Stack.history_refines ops r m hinv hlive).1, (C09Stack.history_refines ops r m hinv hlive).2.1⟩
+  ⟨(C09Stack.history_refines ops r m hinv).1, (C09Stack.history_refines ops r m hinv).2.1⟩
 
 /-- **independence**: in the model source and result are separate values, so a history run on one
 component of the pair (source, result) returns the other component as it was — whatever the history,
